@@ -6,6 +6,7 @@ import (
 	"context"
 
 	"github.com/compose-spec/compose-go/v2/consts"
+	"gopkg.in/yaml.v3"
 )
 
 // Thin exported wrappers for the C01 (totality) verification harness.  Compiled only with the `verif` build tag.
@@ -40,4 +41,17 @@ func VerifOmitEmptyPatterns() []string {
 		l = append(l, string(p))
 	}
 	return l
+}
+
+// VerifResetResolve runs the ResetProcessor (alias expansion, !reset / !override recording) on a YAML
+// document and returns the recorded paths together with the error of the unmarshalling, if any.
+func VerifResetResolve(src []byte) ([]string, error) {
+	var target any
+	p := ResetProcessor{target: &target}
+	err := yaml.Unmarshal(src, &p)
+	var paths []string
+	for _, pt := range p.paths {
+		paths = append(paths, string(pt))
+	}
+	return paths, err
 }
